@@ -63,6 +63,8 @@ type mockWriter struct {
 	nw     int
 	failAt int
 	reason string // the user reason of this scenario
+	// engine userrace: called (outside the mutex) before a write is carried out; may block
+	blockHook func()
 }
 
 func (w *mockWriter) InitDataProcessing(api.WebsocketDataReaderInterface) {}
@@ -71,6 +73,12 @@ func (w *mockWriter) WriteMessageToWebsocketConnection(msg []byte) error {
 	w.mu.Lock()
 	idx := w.nw
 	w.nw++
+	hook := w.blockHook
+	w.mu.Unlock()
+	if hook != nil {
+		hook()
+	}
+	w.mu.Lock()
 	closed := w.closed
 	failAt := w.failAt
 	w.mu.Unlock()
